@@ -264,3 +264,110 @@ class Model:
                 ("if", ("call", EQ, ("ctor", "Token::Comma"), CUR), ("try", ("call", "P.get_next_token", ("param", "self"))),
                  ("if", ("call", EQ, ("param", "?en"), CUR), ("seq", ("try", ("call", "P.get_next_token", ("param", "self"))), ("break",)), ("return", ("Err",))))), e["?body"]) is not None
         return ok, ("" if ok else T.show(t)[:400])
+
+    def mir_eof_gate(self):
+        """Path-based form of the Eof gate on the MIR of parse(): in the CFG with the `current_token == Eof`
+        edges removed, no block that builds `Ok(..)` into the return place is reachable from the entry; and every
+        Eof test is dominated by the call to generate_ast.  Which comparisons are Eof tests is taken from THIR
+        (all comparisons of self.current_token in parse() must be against Token::Eof)."""
+        from .facts import CFG
+        f = self.tb.fn("::parser::Parser::parse")
+        if f is None or not f.mir:
+            return False, "parse not found"
+        t = self.tb.fn_term(f)
+        cmps = []
+        for s_ in subterms(t):
+            if isinstance(s_, tuple) and len(s_) == 4 and s_[0] == "call" and s_[1] in ("<Token as cmp::PartialEq>::eq", "<Token as cmp::PartialEq>::ne") and (unify(CUR, s_[2]) is not None or unify(CUR, s_[3]) is not None):
+                other = s_[3] if unify(CUR, s_[2]) is not None else s_[2]
+                cmps.append(other)
+        matches = [s_ for s_ in subterms(t) if isinstance(s_, tuple) and s_ and s_[0] == "match" and unify(CUR, s_[1]) is not None]
+        if any(o != ("ctor", "Token::Eof") for o in cmps):
+            return False, "parse() compares the current token with something other than Eof"
+        tok = self.tb.adt("token::Token")
+        eof_idx = [i for i, v in enumerate(tok["variants"]) if v["name"] == "Eof"] if tok else []
+        if not eof_idx:
+            return False, "Token::Eof not found"
+        eof_idx = eof_idx[0]
+        blocks = f.mir["blocks"]
+        cfg = CFG(f.mir)
+        dom = cfg.dominators()
+
+        def def_of(local):
+            for b in blocks:
+                for st in b["stmts"]:
+                    if st["k"] == "assign" and st["lhs"]["local"] == local and not st["lhs"]["proj"]:
+                        return st["rv"]
+            return None
+
+        def is_cur_ref(op):
+            if op.get("k") not in ("copy", "move") or op["p"]["proj"]:
+                return False
+            rv = def_of(op["p"]["local"])
+            return bool(rv and rv["k"] == "ref" and [p.get("name") for p in rv["p"]["proj"] if p["k"] == "field"] == ["current_token"])
+        gen_blocks = [i for i, b in enumerate(blocks) if b["term"]["k"] == "call" and (b["term"]["func"].get("fn") or {}).get("def", "").endswith("::generate_ast")]
+        equal_edges = set()
+        tests = 0
+        for i, b in enumerate(blocks):
+            tm = b["term"]
+            if tm["k"] == "call" and (tm["func"].get("fn") or {}).get("def") in ("std::cmp::PartialEq::eq", "std::cmp::PartialEq::ne") and "token::Token" in ((tm["func"]["fn"].get("self_ty")) or ""):
+                if not any(is_cur_ref(a) for a in tm["args"]):
+                    continue
+                is_ne = tm["func"]["fn"]["def"].endswith("::ne")
+                d = tm["dest"]["local"]
+                tgt = tm.get("target")
+                if tgt is None:
+                    continue
+                sw = blocks[tgt]["term"]
+                neg = False
+                # optional `!x`
+                for st in blocks[tgt]["stmts"]:
+                    if st["k"] == "assign" and st["rv"]["k"] == "unop" and st["rv"]["op"] == "Not" and st["rv"]["a"].get("p", {}).get("local") == d:
+                        d = st["lhs"]["local"]
+                        neg = not neg
+                if sw["k"] != "switch" or sw["discr"].get("p", {}).get("local") != d:
+                    continue
+                tests += 1
+                zero = [tb_ for v, tb_ in sw["targets"] if v == "0"]
+                truthy_is_equal = (not is_ne) != neg
+                if truthy_is_equal:
+                    equal_edges.add((tgt, sw["otherwise"]))
+                    for v, tb_ in sw["targets"]:
+                        if v != "0":
+                            equal_edges.add((tgt, tb_))
+                else:
+                    for z in zero:
+                        equal_edges.add((tgt, z))
+                if not any(g in dom.get(tgt, ()) for g in gen_blocks):
+                    return False, "an Eof test is not dominated by the call to generate_ast"
+            if tm["k"] == "switch":
+                dl = tm["discr"].get("p", {}).get("local")
+                rv = None
+                for st in b["stmts"]:
+                    if st["k"] == "assign" and st["lhs"]["local"] == dl and st["rv"]["k"] == "discr":
+                        rv = st["rv"]
+                if rv is not None and [p.get("name") for p in rv["p"]["proj"] if p["k"] == "field"] == ["current_token"]:
+                    tests += 1
+                    for v, tb_ in tm["targets"]:
+                        if v == str(eof_idx):
+                            equal_edges.add((i, tb_))
+                    if not any(g in dom.get(i, ()) for g in gen_blocks):
+                        return False, "an Eof test is not dominated by the call to generate_ast"
+        if tests == 0:
+            return False, "no test of the current token against Eof on any path of parse()"
+        ok_blocks = [i for i, b in enumerate(blocks) if not b["cleanup"] and any(st["k"] == "assign" and st["lhs"]["local"] == 0 and not st["lhs"]["proj"] and st["rv"]["k"] == "aggregate" and st["rv"]["ak"] == "adt" and st["rv"]["of"].get("variant") == "Ok" for st in b["stmts"])]
+        # calls returning straight into _0 (e.g. `self.generate_ast(..)` as tail expression) also produce Ok values
+        tail_calls = [i for i, b in enumerate(blocks) if b["term"]["k"] == "call" and b["term"]["dest"]["local"] == 0 and not b["term"]["dest"]["proj"] and not (b["term"]["func"].get("fn") or {}).get("def", "").endswith("from_residual")]
+        seen = set()
+        st_ = [0]
+        while st_:
+            x = st_.pop()
+            if x in seen:
+                continue
+            seen.add(x)
+            for y in cfg.succ[x]:
+                if (x, y) not in equal_edges:
+                    st_.append(y)
+        bad = [i for i in ok_blocks + tail_calls if i in seen]
+        if bad:
+            return False, "a path reaches `Ok(..)` (block %s) without passing the `current_token == Eof` edge" % bad
+        return True, "%d Eof test(s); every path to Ok(..) passes an equal-to-Eof edge after generate_ast" % tests
